@@ -16,7 +16,13 @@
 
 package kv
 
-import "github.com/pkg/errors"
+import (
+	"time"
+
+	"github.com/pkg/errors"
+
+	time2 "github.com/oxia-db/oxia/common/time"
+)
 
 // VerifCompact forces a manual compaction of the whole key space (verification harness only).
 func VerifCompact(k KV) error {
@@ -59,4 +65,19 @@ func VerifVersionIdTracker(d DB) int64 {
 		return -2
 	}
 	return impl.versionIdTracker.Load()
+}
+
+// VerifTrimNotifications runs one notifications trimming round synchronously, with the DB's clock.
+func VerifTrimNotifications(d DB, retention time.Duration, clock time2.Clock) error {
+	impl, ok := d.(*db)
+	if !ok {
+		return errors.New("not a *db")
+	}
+	t := &notificationsTrimmer{
+		kv:                         impl.kv,
+		notificationsRetentionTime: retention,
+		clock:                      clock,
+		log:                        impl.log,
+	}
+	return t.trimNotifications()
 }
